@@ -4,11 +4,14 @@ from fractions import Fraction
 from concurrent.futures import ThreadPoolExecutor
 
 ROOT = os.path.dirname(os.path.dirname(os.path.abspath(__file__)))
-REPO = "/repo"
+# VERIF_REPO / VERIF_BUILD_TAG are used only by seed_eval.py (to evaluate seeded changes in scratch worktrees in
+# parallel); every registered check runs with the defaults, i.e. against /repo itself.
+REPO = os.environ.get("VERIF_REPO", "/repo")
+_TAG = os.environ.get("VERIF_BUILD_TAG", "")
 BUILD = os.path.join(ROOT, ".build")
-TARGET = os.path.join(BUILD, "target")
+TARGET = os.path.join(BUILD, "target" + _TAG)
 COQ = os.path.join(ROOT, "coq")
-CASES = os.path.join(BUILD, "cases")
+CASES = os.path.join(BUILD, "cases" + _TAG)
 NPROC = 16
 PREC = (48, 32)
 
@@ -24,7 +27,15 @@ def build_harness(profile="debug"):
     os.makedirs(BUILD, exist_ok=True)
     env = dict(os.environ, CARGO_TARGET_DIR=TARGET, CARGO_NET_OFFLINE="true")
     cmd = ["cargo", "build", "--offline", "--quiet"] + (["--release"] if profile == "release" else [])
-    r = subprocess.run(cmd, cwd=os.path.join(ROOT, "harness"), env=env, stdout=subprocess.PIPE, stderr=subprocess.STDOUT, text=True)
+    hdir = os.path.join(ROOT, "harness")
+    if REPO != "/repo":
+        # scratch copy of the executor crate pointing at the alternative checkout
+        hdir = os.path.join(BUILD, "harness" + _TAG)
+        shutil.rmtree(hdir, ignore_errors=True)
+        shutil.copytree(os.path.join(ROOT, "harness"), hdir, ignore=shutil.ignore_patterns("target"))
+        ct = open(os.path.join(hdir, "Cargo.toml")).read().replace('path = "/repo"', 'path = "%s"' % REPO)
+        open(os.path.join(hdir, "Cargo.toml"), "w").write(ct)
+    r = subprocess.run(cmd, cwd=hdir, env=env, stdout=subprocess.PIPE, stderr=subprocess.STDOUT, text=True)
     if r.returncode != 0:
         raise BuildError("cargo build failed against /repo's tree:\n" + r.stdout[-4000:])
     p = os.path.join(TARGET, profile, "verif_harness")
@@ -365,3 +376,70 @@ def gen_stream(rng, length, regime=None, positive=False, grid=4):
     elif base == "const":
         xs = [val(1, 9) if positive else val(-5, 5)] * length
     return reg, xs
+
+# ------------------------------------------------------------------ float (binary64) correspondence
+FLOAT_OK = {"Echo", "Probe", "Const", "Add", "Sub", "Mul", "Div", "Gte", "Lte", "Drawdown", "WRolling", "WRollingMean", "Sma", "Ema", "EmaAlpha",
+            "Cumulative", "Min", "Max", "Roc", "Welford", "WelfordMean", "WelfordVar", "Vst", "Vsct", "Hln", "Cog", "Cti", "Net", "Rsi", "MyRsi",
+            "Pfe", "Cyber", "Laguerre", "Lrsi"}
+
+def float_executable(d):
+    """views of the model that run at Coq's primitive floats (no exp / cos / ln / log2 / tanh)"""
+    return d_views(d) <= FLOAT_OK
+
+def fq_coq(x):
+    x = Fraction(x)
+    return "(f_of_q (%d) %d)" % (x.numerator, x.denominator)
+
+def d_coq_f(d):
+    name = d[0]
+    if not ARITY[name]:
+        return "D" + name
+    parts = ["D" + name]
+    for kind, a in zip(ARITY[name], d[1:]):
+        parts.append(str(a) if kind == "n" else fq_coq(a) if kind == "q" else d_coq_f(a))
+    return "(" + " ".join(parts) + ")"
+
+def f64_sme(bits):
+    sign = bits >> 63
+    e = (bits >> 52) & 0x7FF
+    m = bits & ((1 << 52) - 1)
+    if e == 0x7FF:
+        return "fnan" if m else ("fninf" if sign else "finf")
+    if e == 0:
+        return "(f_of_sme %s %d (-1074))" % ("true" if sign else "false", m)
+    return "(f_of_sme %s %d (%d))" % ("true" if sign else "false", m | (1 << 52), e - 1075)
+
+def float_correspondence(tag, cases):
+    """model@float (Coq primitive binary64) vs implementation@f64, bit for bit; cases must have been run with mode='f64'.
+    returns list of first-differing op (0 = identical) per case"""
+    n = len(cases)
+    if n == 0:
+        return []
+    nsh = min(NPROC, n)
+    shards = [list(range(i, n, nsh)) for i in range(nsh)]
+    bodies = []
+    for sh_ in shards:
+        items = []
+        for k in sh_:
+            c = cases[k]
+            ops = []
+            for o in c.ops:
+                if o[0] in ("u", "q"):
+                    ops.append("OU %d %s" % (o[1], fq_coq(o[2])))
+                else:
+                    ops.append("OL %d" % o[1] if o[0] == "l" else "OC %d" % o[1])
+            exp = []
+            for b in c.obs:
+                exp.append({"N": "XN", "E": "XE", "X": "XX", "C": "XC", "CE": "XX"}.get(b.kind) if b.kind != "S" else "XS %s" % f64_sme(b.val))
+            items.append("mkfcase %s [%s] %s [%s]" % (d_coq_f(c.desc), "; ".join(ops), "true" if c.ctor_ok else "false", "; ".join(exp)))
+        bodies.append("From Coq Require Import ZArith List Floats.\nFrom SF Require Import Res Scalar View Models Exec FloatOps FloatExec.\nImport ListNotations.\nOpen Scope Z_scope.\n"
+                      "Definition cases : list fcase := [\n" + ";\n".join(items) + "\n].\nEval vm_compute in (map (fun z => (z, 0)) (check_cases_fe cases)).\n")
+    res = run_coq_shards(tag + "_float", bodies)
+    out = [None] * n
+    for sh_, (rc, txt) in zip(shards, res):
+        prs = parse_pairs(txt) if rc == 0 else None
+        if prs is None or len(prs) != len(sh_):
+            raise CoqError("coqc failed on a float correspondence shard of %s:\n%s" % (tag, txt[-2500:]))
+        for k, p_ in zip(sh_, prs):
+            out[k] = p_[0]
+    return out
